@@ -132,6 +132,19 @@ theorem refresh_lock_premise (sends write : Bool) (h : lockOk sends write = true
     write = true := by
   subst hs; simpa [lockOk] using h
 
+/-- **Order of a re-advertisement pass.** softResetOut / handleRouteRefresh hand the sender the
+    withdrawals owed for now-rejected routes BEFORE the re-advertised paths (`softOutPaths`).
+    Whenever the re-advertised paths contain an action for a wire key, that action is the last one
+    for the key in the whole list — a withdrawal of another Loc-RIB destination that maps to the
+    same wire key (neighbor in a VRF: one prefix under several route distinguishers) cannot
+    override it. (With the opposite order the withdrawal wins: `withdrawals_last_counterexample`.)
+    The many-to-one mapping itself is outside the model; the `vrf` harness checks the real pass. -/
+theorem withdrawals_first_announce_wins (k : Nat) (wds anns : List P) (a : P)
+    (h : lastAction k anns = some a) : lastAction k (wds ++ anns) = some a := by
+  unfold lastAction at h ⊢
+  rw [List.filter_append, List.getLast?_append, h]
+  rfl
+
 /-! ## known finding: an emptied prefix-set matched with INVERT
 
   Full statement (FALSE of the code): "a prefix-set condition depends only on the set's current
@@ -283,6 +296,12 @@ def r2 : Cand :=
 def eNew : Pol := { stmts := [{ commSet := some [tag], anyPeer := false, peers := [0], route := 2 },
                              { addComm := some 4294705153 }] }
 def eOld : Pol := {}
+
+/-- with the withdrawals AFTER the re-advertised paths the withdrawal wins -/
+theorem withdrawals_last_counterexample :
+    lastAction 0 ([⟨r1, false⟩] ++ [⟨r2, true⟩]) = some ⟨r2, true⟩ := by decide
+example : lastAction 0 ([⟨r2, true⟩] ++ [⟨r1, false⟩]) = some ⟨r1, false⟩ :=
+  withdrawals_first_announce_wins 0 _ _ _ (by decide)
 
 /-- under the old policy the peer was told r1 … -/
 example : wantOfP g0 eOld tE [r1, r2] = some ⟨1, none, none, [tag]⟩ := by decide
